@@ -48,6 +48,8 @@ class Ctx:
         self.known_hits = []      # known findings reproduced
         self.undecided = []       # reasons
         self.skipped = []         # scenarios a driver could not set up
+        import threading
+        self._vlock = threading.Lock()
         self.assumptions = []
         self.exhaustive = False
         self.extra = {}
@@ -266,13 +268,34 @@ class Ctx:
         print("VIOLATION property=%s replay=%s" % (self.prop, d), flush=True)
 
     # ------------------------------------------------------------- validation
-    def validate(self, module, cfg, trace_path, sigprefix="trace", timeout=900, max_reject=12, dfs=False, ignore_deviations=()):
+    def validate(self, module, cfg, trace_path, sigprefix="trace", timeout=900, max_reject=12, dfs=False, ignore_deviations=(), chunk=12000):
         """Validates an NDJSON trace (scenarios separated by `reset` records) against a trace
-        specification.  A rejected scenario is reported, cut out, and the rest is validated again."""
+        specification.  A rejected scenario is reported, cut out, and the rest is validated again.
+        Long traces are cut at scenario boundaries (every trace specification re-initialises all its
+        variables at a `reset` record) and the pieces validated by several TLC processes at once."""
         if not os.path.exists(trace_path):
             self.undecided.append("no trace file %s" % trace_path)
             return
         lines = [l for l in open(trace_path).read().split("\n") if l.strip()]
+        starts = [i for i, l in enumerate(lines) if '"ev":"reset"' in l]
+        if len(lines) > chunk and len(starts) > 1:
+            pieces, cur = [], 0
+            for k, st in enumerate(starts[1:], 1):
+                if st - cur >= chunk:
+                    pieces.append(lines[cur:st])
+                    cur = st
+            pieces.append(lines[cur:])
+            import concurrent.futures
+            self.log("TV  %-40s %6d records in %d pieces" % (cfg, len(lines), len(pieces)))
+            with concurrent.futures.ThreadPoolExecutor(max_workers=6) as ex:
+                futs = [ex.submit(self._validate_lines, module, cfg, pc, sigprefix, timeout, max_reject, ignore_deviations) for pc in pieces]
+                for f in futs:
+                    f.result()
+            return
+        self._validate_lines(module, cfg, lines, sigprefix, timeout, max_reject, ignore_deviations)
+
+    def _validate_lines(self, module, cfg, lines, sigprefix, timeout, max_reject, ignore_deviations):
+        trace_path = "<piece>"
         # scenario boundaries
         scen = []
         for i, l in enumerate(lines):
@@ -293,13 +316,28 @@ class Ctx:
             extra = []
             t = time.time()
             rc, out = self._tlc(module + ".tla", cfg, wd, 1, timeout, extra, stack=True)
+            self._vlock.acquire()
+            try:
+                done = self._after_tlc(module, cfg, lines, wd, rc, out, t, sigprefix, ignore_deviations)
+            finally:
+                self._vlock.release()
+            if done is True:
+                return
+            lines = done
+            rejected += 1
+            if rejected >= max_reject or not lines:
+                return
+
+    def _after_tlc(self, module, cfg, lines, wd, rc, out, t, sigprefix, ignore_deviations):
+        """bookkeeping after one TLC run over `lines`; returns True when done, else the lines left to validate"""
+        if True:
             m = re.search(r"(\d+) states generated, (\d+) distinct states found", out)
             rej = re.search(r'"TRACE_REJECTED_AT", (\d+)', out)
             inv = re.search(r"Invariant (\w+) is violated", out)
             if rc == 124:
                 self.undecided.append("trace validation timeout (%s)" % cfg)
                 shutil.rmtree(wd, ignore_errors=True)
-                return
+                return True
             # independent vector records that the specification does not explain (printed, not fatal)
             mism = sorted(set(int(x) for x in re.findall(r'"STEP_MISMATCH", (\d+)', out)))
             if mism:
@@ -336,7 +374,7 @@ class Ctx:
                 self.trace_records += len(lines)
                 self.traces += len([1 for l in lines if '"ev":"reset"' in l]) or 1
                 shutil.rmtree(wd, ignore_errors=True)
-                return
+                return True
             if rej:
                 at = int(rej.group(1))          # index (1-based) of the first record no action explains
                 why = "no action of %s explains record %d" % (module, at)
@@ -349,7 +387,7 @@ class Ctx:
                 self.undecided.append("trace validation error (%s)" % cfg)
                 sys.stdout.write(out[-3000:])
                 shutil.rmtree(wd, ignore_errors=True)
-                return
+                return True
             at = max(1, min(at, len(lines)))
             # locate scenario
             starts = [i for i, l in enumerate(lines) if '"ev":"reset"' in l]
@@ -376,11 +414,9 @@ class Ctx:
             self.violation(sig, "%s; scenario %s; offending record: %s; preceding: %s" % (
                 why, json.dumps(head)[:300], lines[at - 1][:300], " | ".join(ctxlines[:-1])[:900]),
                 {"scenario_head": head, "record_index_in_scenario": at - s0}, files=(tf, of))
-            rejected += 1
             lines = lines[:s0] + lines[s1:]
             shutil.rmtree(wd, ignore_errors=True)
-            if rejected >= max_reject or not lines:
-                return
+            return lines
 
     # ---------------------------------------------------------------- finish
     def finish(self):
